@@ -219,6 +219,12 @@ class Container(dict):
         """
         return dict(self)
 
+    def __reduce__(self, /):
+        """
+        Used by pickle. The default reduction of a dict subclass iterates obj.items(), which an entry named "items" shadows (entries are attributes).
+        """
+        return (self.__class__, (), self.__class__.__getstate__(self))
+
     def __setstate__(self, state, /):
         """
         Used by pickle to de-serialize from a dict.
